@@ -109,7 +109,7 @@ def check_C20(tier, seed):
         return rep.finish()
     rng = random.Random(seed)
     thorough = tier == "thorough"
-    cases = gen_cases(rng, 6000 if thorough else 700, thorough)
+    cases = gen_cases(rng, 80000 if thorough else 700, thorough)
     others = other_cases(rng, thorough)
     fb = sorted(set(wire.all_float_bits([c for _, c in cases])))
     try:
